@@ -60,6 +60,7 @@ var genFiles = []genFile{
 	{Name: "Limits", ModelImports: []string{"NodeApi"}, Prelude: "variable (ext_self : Node → GoM Unit)\n", Postlude: limitsPostlude},
 	{Name: "PolicyDecode", Imports: []string{"Limits"}, ModelImports: []string{"NodeApi"}, Prelude: "variable (ext_statementsFromIPLD : Node → GoM (List (Option S)))\n"},
 	{Name: "Sealed", Imports: []string{"ChainTypes"}, Prelude: "variable {T : Type} (ext_FromDagCbor : Bytes → GoM T) (ext_dlgFromDagCbor : Bytes → GoM (DlgTok D S)) (ext_invFromDagCbor : Bytes → GoM (InvTok D C A))\n  (ext_CheckCanonical : Bytes → GoM Unit) (ext_CIDFromBytes : Bytes → GoM C)\n  {K : Type} (ext_dlgToDagCbor : DlgTok D S → K → GoM Bytes) (ext_invToDagCbor : InvTok D C A → K → GoM Bytes)\n"},
+	{Name: "ContainerEntry", Prelude: "variable {Rdr Ctn : Type} (ext_FromCborReader : Rdr → GoM Ctn) (ext_FromCarReader : Rdr → GoM Ctn) (ext_bytesReader : Bytes → Rdr) (ext_b64Decoder : B64Enc → Rdr → Rdr)\n"},
 	{Name: "Args", Imports: []string{"Limits"}, ModelImports: []string{"NodeApi"}, Structs: []string{"args.Args"}},
 	{Name: "ChainEntry", Imports: []string{"ChainTypes"}, Prelude: chainEntryPrelude},
 	{Name: "ChainProofsShell", Imports: []string{"ChainTypes"}, Prelude: "variable (ext_Covers : Bytes → Bytes → GoM Bool)\n"},
@@ -91,6 +92,12 @@ var targets = []target{
 	{Dir: "token/invocation", Name: "FromSealed", Lean: "Inv_FromSealed", File: "Sealed", Uses: []string{"ext_invFromDagCbor", "ext_CheckCanonical", "ext_CIDFromBytes"}},
 	{Dir: "token/delegation", Recv: "Token", Name: "ToSealed", Lean: "Dlg_ToSealed", File: "Sealed", Uses: []string{"ext_CIDFromBytes", "ext_dlgToDagCbor"}},
 	{Dir: "token/invocation", Recv: "Token", Name: "ToSealed", Lean: "Inv_ToSealed", File: "Sealed", Uses: []string{"ext_CIDFromBytes", "ext_invToDagCbor"}},
+	{Dir: "pkg/container", Name: "FromCbor", Lean: "FromCbor", File: "ContainerEntry", Uses: []string{"ext_FromCborReader", "ext_bytesReader"}},
+	{Dir: "pkg/container", Name: "FromCborBase64Reader", Lean: "FromCborBase64Reader", File: "ContainerEntry", Uses: []string{"ext_FromCborReader", "ext_b64Decoder"}},
+	{Dir: "pkg/container", Name: "FromCborBase64", Lean: "FromCborBase64", File: "ContainerEntry", Uses: []string{"ext_FromCborReader", "ext_bytesReader", "ext_b64Decoder"}},
+	{Dir: "pkg/container", Name: "FromCar", Lean: "FromCar", File: "ContainerEntry", Uses: []string{"ext_FromCarReader", "ext_bytesReader"}},
+	{Dir: "pkg/container", Name: "FromCarBase64Reader", Lean: "FromCarBase64Reader", File: "ContainerEntry", Uses: []string{"ext_FromCarReader", "ext_b64Decoder"}},
+	{Dir: "pkg/container", Name: "FromCarBase64", Lean: "FromCarBase64", File: "ContainerEntry", Uses: []string{"ext_FromCarReader", "ext_bytesReader", "ext_b64Decoder"}},
 	{Dir: "pkg/policy", Name: "parseGlob", Lean: "parseGlob", File: "Glob", Fuel: []string{"pattern.length + 1"}},
 	{Dir: "pkg/policy", Recv: "glob", Name: "Match", Lean: "glob_Match", File: "Glob",
 		Fuel: []string{"(str.length + 1) * (pattern.length + 2) + 1", "pattern.length + 1"}},
@@ -187,6 +194,8 @@ var typeTable = map[string]string{
 	"args.ReadOnly":     "R",   // the read-only view handed to an argument hook
 	"token.Token":       "T",   // the interface both token types satisfy: only handed on
 	"crypto.PrivKey":    "K",   // a signing key: only handed on
+	"io.Reader":         "Rdr", // a byte source: only handed on
+	"container.Reader":  "Ctn", // the token set a container read yields: only handed on
 }
 
 // structDef is a Go struct whose listed fields are modelled; the Lean structure is generated from the
@@ -314,6 +323,8 @@ var libCalls = map[string]libCall{
 	"limits.ValidateIntegerBoundsIPLD": {"(ValidateIntegerBoundsIPLD_run $1)", ty{"Unit", "unit"}, nil},
 	"envelope.CheckCanonicalDagCbor":   {"(ext_CheckCanonical $1)", ty{"Unit", "unit"}, []string{"ext_CheckCanonical"}},
 	"envelope.CIDFromBytes":            {"(ext_CIDFromBytes $1)", ty{"C", "cid.Cid"}, []string{"ext_CIDFromBytes"}},
+	"bytes.NewReader":                  {"(ext_bytesReader $1)", ty{"Rdr", "io.Reader"}, []string{"ext_bytesReader"}},
+	"base64.NewDecoder":                {"(ext_b64Decoder $1 $2)", ty{"Rdr", "io.Reader"}, []string{"ext_b64Decoder"}},
 	"meta.NewMeta":                     {"(some ext_newMeta)", ty{"(Option M)", "*meta.Meta"}, []string{"ext_newMeta"}},
 	// pseudo-functions the map-iterator rewrite produces
 	"listEntries__": {"(listEntries $1)", ty{"(List Node)", "[]datamodel.Node"}, nil},
@@ -376,6 +387,8 @@ var externFuncs = map[string]libCall{
 	"token.FromDagCbor":             {"(← (ext_FromDagCbor $1))", ty{"T", "token.Token"}, []string{"ext_FromDagCbor"}},
 	"token/delegation.FromDagCbor":  {"(← (ext_dlgFromDagCbor $1))", ty{"(DlgTok D S)", "delegation.Token"}, []string{"ext_dlgFromDagCbor"}},
 	"token/invocation.FromDagCbor":  {"(← (ext_invFromDagCbor $1))", ty{"(InvTok D C A)", "invocation.Token"}, []string{"ext_invFromDagCbor"}},
+	"pkg/container.FromCborReader":  {"(← (ext_FromCborReader $1))", ty{"Ctn", "container.Reader"}, []string{"ext_FromCborReader"}},
+	"pkg/container.FromCarReader":   {"(← (ext_FromCarReader $1))", ty{"Ctn", "container.Reader"}, []string{"ext_FromCarReader"}},
 	"pkg/policy.statementsFromIPLD": {"(← (ext_statementsFromIPLD $2))", ty{"(List (Option S))", "policy.Policy"}, []string{"ext_statementsFromIPLD"}},
 }
 
@@ -412,6 +425,10 @@ var useTypes = map[string]string{
 	"ext_invFromDagCbor":     "Bytes → GoM (InvTok D C A)",
 	"ext_CheckCanonical":     "Bytes → GoM Unit",
 	"ext_CIDFromBytes":       "Bytes → GoM C",
+	"ext_FromCborReader":     "Rdr → GoM Ctn",
+	"ext_FromCarReader":      "Rdr → GoM Ctn",
+	"ext_bytesReader":        "Bytes → Rdr",
+	"ext_b64Decoder":         "B64Enc → Rdr → Rdr",
 	"ext_dlgToDagCbor":       "DlgTok D S → K → GoM Bytes",
 	"ext_invToDagCbor":       "InvTok D C A → K → GoM Bytes",
 	"ext_statementsFromIPLD": "Node → GoM (List (Option S))",
@@ -474,6 +491,10 @@ var constTable = map[string]constDef{
 	"multicodec.P384Pub":      {"(4609 : Int)", intTy},
 	"multicodec.P521Pub":      {"(4610 : Int)", intTy},
 	"multicodec.RsaPub":       {"(4613 : Int)", intTy},
+	"base64.StdEncoding":      {"B64Enc.std", ty{"B64Enc", "*base64.Encoding"}}, // which alphabet / padding the decoder is given
+	"base64.URLEncoding":      {"B64Enc.url", ty{"B64Enc", "*base64.Encoding"}},
+	"base64.RawStdEncoding":   {"B64Enc.rawStd", ty{"B64Enc", "*base64.Encoding"}},
+	"base64.RawURLEncoding":   {"B64Enc.rawUrl", ty{"B64Enc", "*base64.Encoding"}},
 	"did.Undef":               {"ext_undef", ty{"D", "did.DID"}}, // the zero DID: a parameter wherever DID is the opaque D
 	"datamodel.Kind_Int":      {"Kind.int", ty{"Kind", "datamodel.Kind"}},
 	"datamodel.Kind_Float":    {"Kind.float", ty{"Kind", "datamodel.Kind"}},
